@@ -277,7 +277,7 @@ def _operand(op, t):
     info = None
     if op["as"] != "nd":
         v = _cls(op["as"]).from_numpy(v, taxa=_tx(op["vtaxa"]), taxa_grp=_gp(op["vgrp"]))
-        info = {"loc": _hx1(v.location), "scale": _hx1(v.scale)}
+        info = {"loc": _hx1(v.location), "scale": _hx1(v.scale), "mat": _hx2(v.mat)}
     return v, info
 
 def _ix(x):
@@ -311,7 +311,7 @@ def _run_bv(case):
                     nb = copy.deepcopy(b); nb.incorp_taxa(_ix(op["obj"]), v, **kw)
             elif nm == "concat":
                 ms = [_cls(o["cls"]).from_numpy(_arr(o["raw"], t), taxa=_tx(o["taxa"]), taxa_grp=_gp(o["grp"]), trait=trait) for o in op["others"]]
-                rec["oparams"] = [{"loc": _hx1(m.location), "scale": _hx1(m.scale)} for m in ms]
+                rec["oparams"] = [{"loc": _hx1(m.location), "scale": _hx1(m.scale), "mat": _hx2(m.mat)} for m in ms]
                 ms.insert(op["self_pos"], b)
                 nb = C.concat_taxa(ms)
             else:
@@ -693,6 +693,15 @@ def _clause_id(cl):
     if "[tmean-nan]" in cl: return "C15-tmean-ignores-nan"
     if " op=" in cl:
         nm = cl.split(" op=")[1].split(":")[0]
+        # only value-level consequences of the missing re-standardisation belong to the findings: never labels, shapes,
+        # NaN patterns, accepted bad indices or exceptions (except the subclasses' constructor TypeError in concat_taxa)
+        if "missing-value pattern" in cl and nm not in ("append", "incorp"): return None      # a NaN location/scale of self swallows appended values
+        for k in ("taxa labels", "taxa groups", "trait labels", "result class", "shape ", "invalid index", "modified the matrix",
+                  "shared with", "infinite", "succeeded although", "out of range", "first missing entry"):
+            if k in cl: return None
+        if ": raised " in cl and not (nm == "concat" and "raised TypeError" in cl and "required positional argument" in cl): return None
+        if nm == "remove" and ("unscale() =" in cl or "tmax(" in cl or "tmin(" in cl or "trange(" in cl or "tstd(" in cl or "tvar(" in cl or "raw extremum" in cl):
+            return None                                             # remove_taxa keeps the raw values: only location/centring is stale
         return _KNOWN_OPS.get(nm)
     return None
 
@@ -707,10 +716,41 @@ def pred(case, out):
     seen.sort(key=lambda c: _clause_id(c) is not None)          # unexplained clauses first
     return seen[:10]
 
+def _defect_consistent(case, out, k):
+    """step k is an in-place / concat operation: does the implementation show exactly the documented defective behaviour
+    (stored values edited as they are, location/scale untouched; concat: stored values glued, location 0, scale 1;
+    subclasses: TypeError from the constructor)?  Anything else is not the known finding."""
+    op = case["ops"][k - 1]; cur = out["steps"][k]; t = case["t"]
+    prev = None
+    for s in reversed(out["steps"][:k]):
+        if "exc" not in s: prev = s; break
+    if prev is None: return False
+    nm = op["op"]
+    def hxrow(r): return [_hx(float("nan") if v is None else v) for v in r]
+    if nm == "concat":
+        if case["cls"] != "B":
+            return cur.get("exc") == "TypeError" and "required positional argument" in cur.get("msg", "")
+        if "exc" in cur or "oparams" not in cur: return False
+        mats = [q["mat"] for q in cur["oparams"]]
+        mats.insert(op["self_pos"], prev["mat"])
+        want = [r for m in mats for r in m]
+        return cur["mat"] == want and cur["loc"] == [_hx(0.0)] * t and cur["scale"] == [_hx(1.0)] * t
+    if "exc" in cur: return False
+    if cur["loc"] != prev["loc"] or cur["scale"] != prev["scale"]: return False
+    if nm == "remove": want = _l_delete(prev["mat"], op["obj"])
+    else:
+        vals = cur["vparams"]["mat"] if op["as"] != "nd" else [hxrow(r) for r in op["vals"]]
+        want = prev["mat"] + vals if nm == "append" else _l_insert(prev["mat"], op["obj"], vals)
+    return want is not None and cur["mat"] == want
+
 def classify(case, out, clauses):
     if not clauses or case["kind"] != "bv": return None
     ids = [_clause_id(c) for c in clauses]
     if any(i is None for i in ids): return None
+    for c in clauses:
+        if " op=" in c and _clause_id(c) in _KNOWN_OPS.values():
+            k = int(c.split("step ")[1].split(" ")[0])
+            if not _defect_consistent(case, out, k): return None
     return ids[0]
 
 def nontrivial(case, out):
